@@ -58,6 +58,7 @@ def make_keymap(name):
         'rawtyped': lambda: keymap(typed=True),
         'rawnf': lambda: keymap(flat=False),
         'rawsent': lambda: keymap(sentinel='|'),
+        'rawSENTINEL': lambda: keymap(sentinel=__import__('klepto.keymaps', fromlist=['SENTINEL']).SENTINEL),
         'pyhash': lambda: hashmap(),
         'str': lambda: stringmap(flat=False),
         'strflat': lambda: stringmap(),
